@@ -498,7 +498,11 @@ type txSpec struct {
 	newAddr  int
 	payload  []byte
 	beyondVM bool // the scripted VM fee exceeds what the real VM could charge (gas limit): oracles do not apply
-	label    string
+	// the sender is not a key account in a shape the theorems exclude (SenderOK: a contract calling itself,
+	// aergo.name sending to aergo.name) - signature verification (C04) keeps such a tx out of a block; the
+	// oracles do not apply, the model correspondence does
+	outsideSig bool
+	label      string
 }
 
 var typeName = map[types.TxType]string{
@@ -544,6 +548,9 @@ func (s *session) scriptJSON(sc *script) []byte {
 	}
 	return b
 }
+
+// outside: the transaction is outside the domain on which the oracles speak (see beyondVM, outsideSig).
+func (x *txSpec) outside() bool { return x.beyondVM || x.outsideSig }
 
 func (s *session) finish(x *txSpec) {
 	if x.typ == types.TxType_GOVERNANCE {
@@ -915,7 +922,7 @@ func (s *session) runTx(bs *state.BlockState, exec chain.TxExecFn, bi *types.Blo
 						leakShape = true
 					}
 				}
-				if !x.beyondVM {
+				if !x.outside() {
 					if leakShape {
 						known = "vm-fee-check-after-commit"
 					}
@@ -926,8 +933,8 @@ func (s *session) runTx(bs *state.BlockState, exec chain.TxExecFn, bi *types.Blo
 			impl = fmt.Sprintf("applied %s fee=%s fd=%d to=%d", rc.Status, feeUsed, b2i(rc.FeeDelegation), to)
 			s.run.Count("out-" + rc.Status)
 			exp := s.expectSuccess(pre, x, feeUsed, bi.No)
-			if !post.equalState(exp) && x.beyondVM {
-				s.run.Count("stub-domain-effects")
+			if !post.equalState(exp) && x.outside() {
+				s.run.Count(map[bool]string{true: "sig-domain-effects", false: "stub-domain-effects"}[x.outsideSig])
 			} else if !post.equalState(exp) {
 				known = s.classify(x, pre)
 				s.fail("C03", "a successful transaction did not apply exactly its effects", known, line, "pre    "+pre.dump(z), "post   "+post.dump(z), "expect "+exp.dump(z))
@@ -935,7 +942,7 @@ func (s *session) runTx(bs *state.BlockState, exec chain.TxExecFn, bi *types.Blo
 		}
 	}
 	// C01: every unit debited is credited exactly once (BpReward counted as a holder until paid out)
-	if sumPre.Cmp(sumPost) != 0 && !x.beyondVM {
+	if sumPre.Cmp(sumPost) != 0 && !x.outside() {
 		if known == "" {
 			known = s.classify(x, pre)
 			if known == "" && leakShape {
@@ -950,7 +957,7 @@ func (s *session) runTx(bs *state.BlockState, exec chain.TxExecFn, bi *types.Blo
 			}
 		}
 	} else if sumPre.Cmp(sumPost) != 0 {
-		s.run.Count("stub-domain-sum-change")
+		s.run.Count(map[bool]string{true: "sig-domain-sum-change", false: "stub-domain-sum-change"}[x.outsideSig])
 		if s.knownInBlock == "" {
 			s.knownInBlock = "stub"
 		}
@@ -1664,11 +1671,68 @@ func (b *blockGen) genFeeDelegation() *txSpec {
 	}
 	b.setFee(x, true)
 	if !b.cur.acct(x.rcpt).code {
-		// the real CheckFeeDelegation refuses a recipient without code and ABI (the stub accepts it):
-		// outside the domain where the stub stands for the VM; only the correspondence is checked
-		x.beyondVM = true
+		// CheckFeeDelegation refuses a recipient without code ("cannot find contract"; the stub keeps that
+		// precondition of the real function): the tx must be rejected without a trace - the other side of
+		// the former FdTarget assumption, now inside the oracles' domain
+		x.beyondVM = false
+		x.label = "fd-to-non-contract"
 	}
 	return x
+}
+
+// genOtherSender: transactions whose sender is NOT a key account - the other side of the `SenderOK`
+// hypothesis of the conservation theorems. executeTx itself never looks at the signature (the block
+// verifier and the mempool do, C04), so the real code runs them:
+//   - a contract as the sender of a plain transfer / call to ANOTHER account: inside SenderOK (the hypothesis
+//     was sharpened to "recipient = sender => no code"): the oracles apply;
+//   - a contract calling itself, aergo.name sending a name transaction to aergo.name: outside SenderOK, the
+//     model mints / loses coin there (necessity witnesses in Props/C01.lean) and the real code must do exactly
+//     the same: correspondence only (outsideSig).
+func (b *blockGen) genOtherSender() *txSpec {
+	r := b.s.rng
+	cs := b.contracts()
+	k := r.Intn(4)
+	if len(cs) == 0 {
+		k = 3
+	}
+	switch k {
+	case 0:
+		c := cs[r.Intn(len(cs))]
+		x := &txSpec{typ: types.TxType_TRANSFER, sender: c, rcpt: b.pickUser(), amount: b.randAmount(c), nonce: b.nextNonce(c), label: "sender-contract-transfer"}
+		return x
+	case 1:
+		c := cs[r.Intn(len(cs))]
+		d := cs[r.Intn(len(cs))]
+		if d == c {
+			return &txSpec{typ: types.TxType_TRANSFER, sender: c, rcpt: b.pickUser(), amount: b.randAmount(c), nonce: b.nextNonce(c), label: "sender-contract-transfer"}
+		}
+		x := &txSpec{typ: types.TxType_CALL, sender: c, rcpt: d, amount: b.randAmount(c), nonce: b.nextNonce(c), label: "sender-contract-call-other"}
+		x.sc = b.genScript(x, false, new(big.Int).Add(b.cur.acct(d).bal, x.amount))
+		b.setFee(x, false)
+		return x
+	case 2:
+		c := cs[r.Intn(len(cs))]
+		x := &txSpec{typ: types.TxType_CALL, sender: c, rcpt: c, amount: b.randAmount(c), nonce: b.nextNonce(c), label: "sender-contract-calls-itself", outsideSig: true}
+		x.sc = b.genScript(x, false, b.cur.acct(c).bal)
+		if len(x.sc.xfers) == 0 && x.sc.err == "ok" {
+			x.sc.xfers = []xfer{{b.pickUser(), new(big.Int).Div(b.cur.acct(c).bal, big.NewInt(int64(2+r.Intn(5))))}}
+		}
+		b.setFee(x, false)
+		return x
+	default:
+		x := &txSpec{typ: types.TxType_GOVERNANCE, sender: iName, rcpt: iName, amount: new(big.Int), nonce: b.nextNonce(iName), label: "sender-aergo.name", outsideSig: true}
+		if r.Chance(1, 2) {
+			a := b.pickUser()
+			x.gov = []string{"setowner", strconv.Itoa(a)}
+			x.govJSON = `{"Name":"v1setOwner","Args":["` + types.EncodeAddress(b.s.t.addr[a]) + `"]}`
+		} else {
+			n := 1 + r.Intn(nNames)
+			x.gov = []string{"ncreate", strconv.Itoa(n)}
+			x.govJSON = `{"Name":"v1createName","Args":["` + nameStr(n) + `"]}`
+			x.amount = b.around(b.s.cfg.namePrice)
+		}
+		return x
+	}
 }
 
 func (b *blockGen) genMulticall() *txSpec {
@@ -1808,6 +1872,9 @@ func (b *blockGen) genAny() *txSpec {
 	}
 	if b.s.rng.Chance(1, 30) {
 		return b.genRejectAfterCommit()
+	}
+	if b.s.rng.Chance(1, 25) {
+		return b.genOtherSender()
 	}
 	switch b.s.rng.Intn(20) {
 	case 0, 1, 2, 3, 4, 5:
